@@ -18,6 +18,9 @@ func mayRefuse(t reflect.Type, seen map[reflect.Type]bool) string {
 		return ""
 	}
 	seen[t] = true
+	if _, ok := poolAssign[t]; ok {
+		return "" // custom unfolder (Expander)
+	}
 	switch t.Kind() {
 	case reflect.Bool, reflect.String, reflect.Int, reflect.Int8, reflect.Int16, reflect.Int32, reflect.Int64,
 		reflect.Uint, reflect.Uint8, reflect.Uint16, reflect.Uint32, reflect.Uint64, reflect.Float32, reflect.Float64:
